@@ -578,6 +578,8 @@ def run_writer_check(prop, tier, seed, faults, design_ref):
             {"correspondence": "Writer.run / Writer.sink_init vs MultiLineWriter / BufferedSpyMetricSink",
              "theorems": rep.cov.get("theorems", []), "first_disagreeing_case": c,
              "implementation": i, "model": m})
+    # extraction + glue against the kernel: a sample of the very cases above, proved by vm_compute
+    common.kernel_crosscheck(rep, "mlw", [c for c in cases if c.startswith("W ")], 200 if thorough else 120)
     nt = set()
     for c, o in zip(cases, impl):
         if nontrivial(c, o):
